@@ -143,15 +143,6 @@ Definition write_goes_out (x : istate) : bool :=
 Definition wraps_cid (x : istate) : bool :=
   match i_remote_cid x with [] => false | _ => true end.
 
-(* What the peer does with a record the corrupted side labels epoch 0 (conn.go
-   handleIncomingPacket: epoch 0 is not decrypted).  A plain application_data record decodes and
-   is refused by handleApplicationDataRecord with a fatal unexpected_message alert (sent protected,
-   in the peer's epoch), which closes the corrupted side if it can read it.  A tls12_cid record
-   does not decode as record content ("invalid content type"): an unprotected record that does
-   not decode is silently discarded, nobody alerts, and the other direction keeps working. *)
-Definition draws_fatal_alert (x : istate) : bool :=
-  (i_local_epoch x =? 0) && write_goes_out x && negb (wraps_cid x).
-
 Definition corrupt_ok (c : corrupt_case) : bool :=
   let '(input, dec_ok, dec, peer, resume_ok, x2p, p2x) := c in
   match input with
@@ -165,13 +156,27 @@ Definition corrupt_ok (c : corrupt_case) : bool :=
     match gen_internal dec, gen_internal peer with
     | Some x, Some t =>
         resume_ok && Bool.eqb x2p (delivers x t) &&
-        (* the corrupted side writes first; if that draws a fatal alert it is closed before the
-           peer's record arrives (when it cannot read the alert it cannot read the record either) *)
-        Bool.eqb p2x (delivers t x && negb (draws_fatal_alert x))
+        (* (a state that would write in epoch 0 no longer gets this far: gen_internal refuses it) *)
+        Bool.eqb p2x (delivers t x)
     | None, Some _ => negb resume_ok
     | _, None => false
     end
   else true.
+
+(* ---------------- export at VerifyConnection time ----------------
+   (the State handed to the VerifyConnection callback, after MarshalBinary / UnmarshalBinary;
+    UnmarshalBinary returned nil; resumeWithConfig returned nil) *)
+Definition vc_case := (pstate * bool * bool)%type.
+
+Definition vc_ok (c : vc_case) : bool :=
+  let '(p, dec_ok, resume_ok) := c in
+  match serialize p with
+  | Some z => match unmarshal z with
+              | Some p' => dec_ok && Bool.eqb resume_ok (match gen_internal p' with Some _ => true | None => false end)
+              | None => negb dec_ok
+              end
+  | None => negb dec_ok
+  end.
 
 (* ---------------- suite table leg ----------------
    (id, ForID(id,nil) <> nil, is a 1.3 suite, UnmarshalBinary ok, generateInternalState ok,
